@@ -46,10 +46,22 @@ def pins(fn, block):
     return out
 
 
-def constructs(fn):
+def _own_constructions(fn):
+    for n, b, rk, ev in fn.nodes():
+        k = n.get("k")
+        if k == "new" and "array" not in n and n.get("t", "").startswith("draco::"):
+            yield "new", n["t"], n
+        elif k == "ctor" and n.get("cls", "").startswith("draco::"):
+            yield "ctor", n["cls"], n
+
+
+def constructs(fn, F=None):
     """[(pins, kind, target, site)] for every object construction (new /
     local ctor of a draco class) and every call to a draco function template
-    with explicit class template arguments, under at least one pin."""
+    with explicit class template arguments, under at least one pin.  With F,
+    the constructions inside a same-file free helper called under the pin (an
+    arm moved into `template <int N> bool EncodeWithLevel(...)`) count as the
+    arm's own."""
     out = []
     for n, b, rk, ev in fn.nodes():
         k = n.get("k")
@@ -60,11 +72,18 @@ def constructs(fn):
             tgt, kind = n.get("cls"), "ctor"
         elif k == "call" and (n.get("fn") or "").startswith("draco::") and "<" in (n.get("fn") or ""):
             tgt, kind = n.get("fn"), "call"
-        if not tgt or not tgt.startswith("draco::"):
+        helper = k == "call" and F is not None and not n.get("virt") and (n.get("fn") or "").startswith("draco::")
+        if (not tgt or not tgt.startswith("draco::")) and not helper:
             continue
         p = pins(fn, b)
         if p:
-            out.append((p, kind, tgt, fn.site(n.get("loc", ""))))
+            if tgt and tgt.startswith("draco::"):
+                out.append((p, kind, tgt, fn.site(n.get("loc", ""))))
+            if helper:
+                tg = [t for t in F.targets(n) if not t.cls and t.file == fn.file]
+                if len(tg) == 1:
+                    for k2, t2, n2 in _own_constructions(tg[0]):
+                        out.append((p, k2, t2, fn.site(n.get("loc", ""))))
     return out
 
 
@@ -82,7 +101,7 @@ def factory_map(F, fn_base, var, kinds=("new", "ctor", "call"), target_filter=No
             for i, prm in enumerate(fn.params):
                 if prm.get("n") == var:
                     possible = param_consts.values(fn, i)
-        for p, kind, tgt, site in constructs(fn):
+        for p, kind, tgt, site in constructs(fn, F):
             if possible is not None and not any(v == var and val in possible for v, val in p):
                 continue
             if kind not in kinds:
